@@ -97,6 +97,18 @@ impl Tally {
 fn unary<C: CellType>(t: &mut [Tally; 6], w: &str) {
     let mut fam = family::<C>();
     fam.extend(family_support::<C>());
+    // every monomial plus a constant (what const_inc_of / constant / identity have to tell apart)
+    {
+        let x = Expr::<C>::var(0);
+        let y = Expr::<C>::var(1);
+        let ms = [x.clone(), y.clone(), x.mul(&y), y.mul(&x), x.mul(&x), x.mul(&x).mul(&y), x.mul(Expr::val(C::from_u8(2))), x.mul(&y).mul(Expr::val(C::NEG_ONE))];
+        for m in &ms {
+            for c in [C::ZERO, C::ONE, C::from_u8(5), C::NEG_ONE] {
+                fam.push(m.add(Expr::val(c)));
+                fam.push(m.add(&y).add(Expr::val(c)));
+            }
+        }
+    }
     let vals = cells::<C>();
     for e in &fam {
         let neg = e.neg();
@@ -105,6 +117,12 @@ fn unary<C: CellType>(t: &mut [Tally; 6], w: &str) {
         let inc = e.inc_of(0);
         let pinc = e.prod_inc_of(0);
         let prod = e.prod_of(0);
+        // the observers unit u4 proves (bounded twin: a rewrite makes the shape-anchored proof undecided)
+        let cinc = [e.const_inc_of(0), e.const_inc_of(1)];
+        let konst = e.constant();
+        let ident = e.identity();
+        let cpart = e.constant_part();
+        t[3].check(cpart == ev(e, C::ZERO, C::ZERO), || format!("{} constant_part of {:?} = {:?}", w, e, cpart));
         for &a in &vals {
             for &b in &vals {
                 let v = ev(e, a, b);
@@ -113,6 +131,18 @@ fn unary<C: CellType>(t: &mut [Tally; 6], w: &str) {
                     t[1].check(ev(h, a, b).wrapping_add(ev(h, a, b)) == v, || format!("{} half of {:?} at [0]={:?} [1]={:?}", w, e, a, b));
                 }
                 t[2].check(ev(&norm, a, b) == v, || format!("{} normalize of {:?} gives {:?}: differs at [0]={:?} [1]={:?}", w, e, norm, a, b));
+                for (vi, ci) in cinc.iter().enumerate() {
+                    if let Some(c) = ci {
+                        let xv = if vi == 0 { a } else { b };
+                        t[3].check(xv.wrapping_add(*c) == v, || format!("{} const_inc_of({}) of {:?} = Some({:?}) at [0]={:?} [1]={:?}", w, vi, e, c, a, b));
+                    }
+                }
+                if let Some(c) = konst {
+                    t[3].check(c == v, || format!("{} constant of {:?} = Some({:?}) at [0]={:?} [1]={:?}", w, e, c, a, b));
+                }
+                if let Some(vi) = ident {
+                    t[3].check((if vi == 0 { a } else if vi == 1 { b } else { C::ZERO }) == v, || format!("{} identity of {:?} = Some({}) at [0]={:?} [1]={:?}", w, e, vi, a, b));
+                }
                 if let Some(r) = &inc {
                     t[3].check(a.wrapping_add(ev(r, a, b)) == v, || format!("{} inc_of(0) of {:?} = {:?} at [0]={:?} [1]={:?}", w, e, r, a, b));
                 }
